@@ -24,6 +24,7 @@ CONF = {
     "C01": (["space", "upper", "crlf", "compact", "mixed", "pretty"], 2, 2),
     "C02": (["compact", "crlf", "lines", "mlcomment", "space"], 2, 1),
     "C03": (["space", "pretty", "crlf", "mixed"], 2, 0),
+    "C04": (["space", "crlf", "mixed", "mlcomment"], 2, 0),
     "C07": (["space", "upper", "mixed", "lines"], 2, 1),
     "C18": (["lines", "crlf", "mlcomment", "space", "compact"], 3, 3),
 }
@@ -56,7 +57,7 @@ def run(prop, tier, seed, extra_drivers=()):
         sl["devs"] = devs
         return sl["name"], ml, pengine.run_slice(sl, ml, layouts, nlay, nsuf, SUFFIXES,
                                                  nproc=3 if tier == "quick" else 6,
-                                                 tlc_workers=3 if tier == "quick" else 6)
+                                                 tlc_workers=3 if tier == "quick" else 6, roundtrip=(prop == "C04"))
 
     with ThreadPoolExecutor(max_workers=8 if tier == "quick" else 4) as ex:
         for r in ex.map(one, jobs):
